@@ -48,6 +48,8 @@ def _fd(draw):
                 tol=draw(st.sampled_from([None, 1e-6, 1e-10])), flat=draw(st.booleans()),
                 adaptive=draw(st.sampled_from([True, True, True, False])),
                 # an integer-typed evaluation point and a function that keeps the dtype of its argument (x^3 - 2x elementwise)
+                # memory layout of the evaluation point (same values and shape): C order, Fortran order, a transposed view
+                layout=draw(st.sampled_from(["C", "C", "F", "T"])),
                 int_point=draw(st.sampled_from([False, False, False, False, True])),
                 xi=draw(st.lists(st.integers(-3, 3), min_size=n, max_size=n)))
 
@@ -134,6 +136,10 @@ def _check_fd(case):
             kw["adaptive"] = False
             kw["richardson_iter"] = 6
         jw = JacobianWrapper(f, base_order=case["base_order"], flat=case["flat"], **kw)
+        if case.get("layout") == "F":
+            x = np.asfortranarray(x)
+        elif case.get("layout") == "T" and x.ndim >= 2:
+            x = np.ascontiguousarray(x.T).T
         J = np.asarray(jw(x))
     except Exception as e:
         if exc_origin(e)[0] == "harness":
